@@ -11,6 +11,7 @@ CliWorld    ("cli")     C17: every entry point x file pair x environment; exit s
 """
 import copy
 import json
+import random
 import os
 import shutil
 import subprocess
@@ -36,6 +37,11 @@ def gen_cfg(rng, scratch_ok=True):
     cfg = {"hashseed": str(rng.choice([0, 1, 2, 42, rng.randint(0, 4294967295)])), "lc_all": loc, "utf8": utf8,
            "tz": rng.choice(TZS), "cwd": rng.choice(["scratch", "/", "repo"]), "opt": rng.random() < 0.2, "werror": rng.random() < 0.25, "sslib": rng.random() < 0.25,
            "ioenc": rng.choice(["", "", "", "latin-1", "ascii", "utf-16"])}
+    from core import PLAUSIBLE_ENV
+    if rng.random() < 0.25:
+        cfg["penv"] = {k: rng.choice(["1", "true", "yes"]) for k in rng.sample(PLAUSIBLE_ENV, rng.randint(1, 3))}
+    if rng.random() < 0.2:
+        cfg["plog"] = "DEBUG"
     return cfg
 
 
@@ -54,6 +60,10 @@ def child_env(cfg, extra=None):
     if cfg.get("sslib"):
         # a root key holder's environment: the optional dependency is importable (stand-in package)
         env["PYTHONPATH"] = REPO + os.pathsep + os.path.join(HERE, "stubs")
+    for k, v in (cfg.get("penv") or {}).items():
+        env[k] = v
+    if cfg.get("plog"):
+        env["VERIF_CHILD_LOG"] = cfg["plog"]
     if extra:
         env.update(extra)
     return env
@@ -113,6 +123,7 @@ class CanonWorld(ProcBase):
         h = hashlib.sha256()
         seen = {}
         vals = childmod.corpus(self.h["corpus_seed"], self.h["n"])
+        n_corpus = len(vals)
         # constructed near-collisions
         vals += ["1", 1, 1.0, True, "true", None, "null", [], {}, "[]", "{}", [1], [1.0], ["1"], {"a": 1}, {"a": 1.0},
                  0, -0.0, 0.0, False, "", " ", {"": 0}, {"": False}, "é", "é", "\ud83d", "\U0001f600", 1e22, 10**22]
@@ -123,7 +134,7 @@ class CanonWorld(ProcBase):
                 run.violate(("C07",), "serialize-failed", "canonserialize raised %s: %s for JSON value %r" % (type(e).__name__, str(e)[:100], _short(v)),
                             "serialize-failed:" + type(e).__name__)
                 return None
-            if i < self.h["n"]:
+            if i < n_corpus:
                 h.update(len(b).to_bytes(8, "big"))
                 h.update(b)
             if b != refcanon(v):
@@ -181,6 +192,28 @@ class CanonWorld(ProcBase):
                                 "stale-state-after-failed-serialization")
                     return None
         del deep, cur
+        # a caller that keeps building one object and serializes it after every change (sizes on both sides of any plausible "large" cut-off)
+        rr = random.Random(self.h["corpus_seed"] ^ 0xB16)
+        for size in (rr.choice([10, 900]), rr.choice([5000, 40000]), rr.choice([70000, 140000]), rr.choice([300000, 1200000])):
+            obj = {"packages": {"p%d" % i: {"sha256": "%064x" % rr.getrandbits(256), "size": i} for i in range(max(1, size // 110))}, "info": {"subdir": "noarch"}}
+            for step in range(4):
+                try:
+                    b = cs(obj)
+                except Exception as e:  # noqa: BLE001
+                    b = repr(e).encode()
+                if b != refcanon(obj):
+                    run.violate(("C07", "C12"), "stale-bytes-for-changed-object",
+                                "an object of about %d bytes, changed in place between two serializations, serialized to the bytes of its earlier state" % size,
+                                "stale-bytes-for-changed-object")
+                    return None
+                k = rr.choice(list(obj["packages"]))
+                if step == 0:
+                    obj["packages"][k]["size"] += 1
+                elif step == 1:
+                    obj["info"]["subdir"] = "linux-64"
+                else:
+                    obj["packages"][k]["sha256"] = "%064x" % rr.getrandbits(256)
+                run.probe("serialize_mutate_serialize")
         self.ref = h.hexdigest()
         return self.ref
 
@@ -513,6 +546,33 @@ class CliWorld(ChainWorld):
             f.write(data)
         return path
 
+    def _spell(self, path, how, decoy=None):
+        """Another spelling of an existing real file's path.  'symdotdot': <A>/link/../<name> where link is a symlink to a
+        directory elsewhere, so that the kernel reaches <B>/<name> while a purely textual collapse of 'link/..' reaches
+        <A>/<name> (where a decoy with other content is placed).  Returns the spelled path."""
+        if not how:
+            return path
+        name = os.path.basename(path)
+        self.nfile += 1
+        a = os.path.join(self.scratch, "A%d" % self.nfile)
+        b = os.path.join(self.scratch, "B%d" % self.nfile)
+        os.makedirs(a)
+        os.makedirs(os.path.join(b, "sub"))
+        real = os.path.join(b, name)
+        os.replace(path, real) if os.path.isfile(path) else None
+        if how == "symdotdot":
+            os.symlink(os.path.join("..", os.path.basename(b), "sub"), os.path.join(a, "link"))
+            if decoy is not None:
+                with open(os.path.join(a, name), "wb") as f:
+                    f.write(decoy)
+            self.run.fault("path_through_symlink_dotdot")
+            return os.path.join(a, "link", "..", name), real
+        if how == "dotslash":
+            return os.path.join(b, ".", "sub", "..", name), real
+        if how == "relative":
+            return os.path.relpath(real, self.scratch), real
+        return real, real
+
     def _cmd(self, entry, args, cfg):
         flags = ["-O"] if cfg.get("opt") else []
         if entry == "script":
@@ -549,7 +609,19 @@ class CliWorld(ChainWorld):
         sp = op.get("special") or [None, None]
         tpath = self._write(T, op.get("tfmt", "canon"), sp[0])
         upath = self._write(U, op.get("ufmt", "canon"), sp[1])
-        accepted, why = self._oracle(tpath, upath)
+        ureal = upath
+        if op.get("spell") and not sp[1] and os.path.isfile(upath):
+            decoy = None
+            if op.get("decoy") is not None:
+                D = self._base(op["decoy"])
+                try:
+                    decoy = refcanon(D) if D is not None else None
+                except (TypeError, AssertionError):
+                    decoy = None
+            upath, ureal = self._spell(upath, op["spell"], decoy)
+            if op["spell"] == "relative":
+                op = dict(op, cfg=dict(op["cfg"], cwd="scratch"))
+        accepted, why = self._oracle(tpath, ureal)
         cfg = op["cfg"]
         cmd = self._cmd(op["entry"], ["verify-metadata", tpath, upath], cfg)
         cwd = {"scratch": self.scratch, "/": "/", "repo": REPO}[cfg.get("cwd", "scratch")]
@@ -668,6 +740,9 @@ class CliWorld(ChainWorld):
         if text is not None:
             with open(kpath, "w") as f:
                 f.write(text)
+        rreal = rpath
+        if op.get("spell"):
+            rpath, rreal = self._spell(rpath, op["spell"], before)
         cfg = op["cfg"]
         cmd = self._cmd(op["entry"], ["sign-artifacts", rpath, kpath], cfg)
         pre = None
@@ -682,7 +757,7 @@ class CliWorld(ChainWorld):
         p = subprocess.run(cmd, env=child_env(cfg), cwd=self.scratch, capture_output=True, timeout=120, preexec_fn=pre)
         self.run.probe("process_spawned")
         self.run.probe("entry_" + op["entry"])
-        after = open(rpath, "rb").read()
+        after = open(rreal, "rb").read()
         signed = False
         pub = self.keys.pub[0]
         try:
@@ -713,7 +788,7 @@ class CliWorld(ChainWorld):
             self.run.rejects += 1
         self.run.fault("signing_input_" + k)
         if p.returncode == 0 and not signed:
-            self.run.violate(("C17",), "sign-exit-zero-without-signing",
+            self.run.violate(("C17", "C11", "C08", "C18"), "sign-exit-zero-without-signing",
                              "`%s sign-artifacts` exited 0 but the file is not signed (key file: %s): %s"
                              % (op["entry"], k, p.stdout.decode("utf-8", "replace")[:200]), "sign-exit-zero-without-signing:" + op["entry"])
         elif p.returncode != 0 and good_input and not op.get("fsize"):
@@ -825,6 +900,14 @@ class CliWorld(ChainWorld):
             if rng.random() < 0.12:
                 s = rng.choice(["missing", "dir", "empty", "notjson", "bom", "binary"])
                 op["special"] = [s, None] if rng.random() < 0.4 else [None, s]
+            elif rng.random() < 0.25:
+                op["spell"] = rng.choice(["symdotdot", "symdotdot", "dotslash", "relative"])
+                # the decoy at the textually collapsed location gets the opposite verdict where possible
+                ti = t[1] if t[0] == "chain" else None
+                if ti is not None and ti + 1 < len(self.honest_chain) and u != ["chain", ti + 1]:
+                    op["decoy"] = ["chain", ti + 1]
+                elif self.crafted:
+                    op["decoy"] = ["crafted", rng.randrange(len(self.crafted))]
             return op
         if r < 0.52:
             return {"op": "cli_toctou", "at": rng.choice([2, 2, 3, 1]),
@@ -853,6 +936,8 @@ class CliWorld(ChainWorld):
                 op["fsize"] = rng.choice([0, 64, 512, 2048])
             elif rng.random() < 0.35:
                 op["presign"] = rng.randint(1, 50)
+            if rng.random() < 0.25 and "fsize" not in op:
+                op["spell"] = rng.choice(["symdotdot", "symdotdot", "dotslash"])
             return op
         if r < 0.74:
             head = self.head["signed"]["delegations"].get("key_mgr", {}).get("pubkeys", [])
